@@ -423,6 +423,32 @@ class Interp:
             if ci is None:
                 # a library / built-in object whose attribute has no model: undecided, never an AttributeError
                 raise Unsupported(f'no model for {obj.cls}.{name}')
+            ann = self.declared_field_annotation(ci, name)
+            if ann is not None:
+                # a declared (dataclass) field the contract's shape does not list: at function entry it can hold any value
+                # of its declared type
+                st.assumptions_used.add(f'field {ci.name}.{name} is not part of the contract\'s shape: arbitrary value of its '
+                                        f'declared type ({ann})')
+                head = ann.split('[')[0].split('.')[-1]
+                if head in ('set', 'Set'):
+                    val = st.alloc('set', elems=SymSet.fresh(st, name))
+                elif head in ('dict', 'Dict'):
+                    val = st.alloc('dict', map=SymMap.fresh(st, name))
+                elif head in ('list', 'List'):
+                    val = st.alloc('list', items=SymSeq.fresh(st, name))
+                elif head in ('bool', 'int', 'str'):
+                    val = (SymB(st.fresh_bool(name)) if head == 'bool' else SymI(st.fresh_int(name)) if head == 'int'
+                           else SymS(st.fresh_str(name)))
+                elif head in ('Any', 'Optional', 'Union', 'object'):
+                    val = SymV(st.fresh_val(name))
+                else:
+                    raise Unsupported(f'the contract\'s shape of {ci.name} has no field {name} (declared with type {ann})')
+                st.setf(obj, name, val)
+                return val
+            if name in self.declared_instance_attrs(ci):
+                # the class declares the attribute (dataclass field or `self.x = ...` in a method) but the state the
+                # contract set up does not have it: the contract's view of the object is out of date, not the code wrong
+                raise Unsupported(f'the contract\'s shape of {ci.name} has no field {name} (declared by the class)')
             if name.startswith('__') and name.endswith('__'):
                 # special attributes (__dict__, __class__, ...) exist on every object: no model, undecided
                 raise Unsupported(f'special attribute {name} of an instance of {ci.name}')
@@ -493,7 +519,65 @@ class Interp:
             self.raise_builtin('AttributeError', f'{name} of a non-string')
         if st.branch(PyV.is_none(t), 'attr-of-none'):
             self.raise_builtin('AttributeError', f'None.{name}')
+        if name in self.MUTATORS and not self.rooted_in_fresh_value(t):
+            return LibFn(f'value.{name}', lambda it, ca, _n=name, _o=obj: it.mutation_of_opaque_value(_o, _n))
         return lower(attr_fn(name)(t), st)
+
+    # methods that change a built-in container in place.  Values that are terms (node results, graph attribute values such
+    # as the candidate list of a one-of, user inputs) are immutable in the model and are shared by reference in reality
+    # (graph copies are shallow): engine code that mutates one changes data it does not own.
+    MUTATORS = frozenset(('append', 'extend', 'insert', 'remove', 'pop', 'clear', 'sort', 'reverse', 'add', 'discard', 'update',
+                          'setdefault', 'popitem', '__setitem__', '__delitem__', 'difference_update', 'intersection_update'))
+
+    def rooted_in_fresh_value(self, t):
+        """t is  attr_a(attr_b(... v ...))  with v a value created by this very function (a class made by type(), the result
+        of a user call): mutating it touches nothing that existed before"""
+        fresh = {e.cls.t.get_id() for e in self.st.effects if e.kind == 'new_class' and isinstance(getattr(e, 'cls', None), SymV)}
+        fresh |= {e.result.t.get_id() for e in self.st.effects if e.kind == 'user_call' and isinstance(getattr(e, 'result', None), SymV)}
+        while True:
+            if t.get_id() in fresh:
+                return True
+            if z3.is_app(t) and t.num_args() == 1 and t.decl().name().startswith('attr_'):
+                t = t.arg(0)
+                continue
+            return False
+
+    def mutation_of_opaque_value(self, obj, name):
+        c = self.contracts.get(self.verifying) if self.verifying else None
+        cname = c.name if c is not None else (self.verifying or '<entry>')
+        self.st.oblige_fail(f'{cname}#frame', f'in-place mutation ({name}) of a value the function does not own: node results, graph '
+                            f'attribute values and inputs are shared by reference between runs and scopes', location=f'value.{name}')
+        raise Unsupported(f'in-place mutation ({name}) of an opaque value')
+
+    def declared_field_annotation(self, ci, name):
+        for c in self.repo.mro(ci):
+            if isinstance(c, ClassInfo) and c.is_dataclass:
+                for item in c.node.body:
+                    if isinstance(item, ast.AnnAssign) and isinstance(item.target, ast.Name) and item.target.id == name \
+                            and 'ClassVar' not in ast.unparse(item.annotation):
+                        return ast.unparse(item.annotation)
+        return None
+
+    def declared_instance_attrs(self, ci):
+        cache = self.__dict__.setdefault('_decl_attrs', {})
+        if ci.key not in cache:
+            names = set()
+            for c in self.repo.mro(ci):
+                if not isinstance(c, ClassInfo):
+                    continue
+                names.update(n for n, _d in c.ann_fields)
+                for fi in c.methods.values():
+                    for node in ast.walk(fi.node):
+                        if isinstance(node, (ast.Assign, ast.AnnAssign, ast.AugAssign)):
+                            targets = node.targets if isinstance(node, ast.Assign) else [node.target]
+                            for t_ in targets:
+                                if isinstance(t_, ast.Attribute) and isinstance(t_.value, ast.Name) and t_.value.id == 'self':
+                                    attr = t_.attr
+                                    if attr.startswith('__') and not attr.endswith('__'):
+                                        attr = f'_{c.name.lstrip("_")}{attr}'
+                                    names.add(attr)
+            cache[ci.key] = names
+        return cache[ci.key]
 
     def class_attr(self, ci, name, instance, clsref=None):
         """look ``name`` up in the class hierarchy; returns (value,) or None"""
